@@ -1,6 +1,8 @@
 """C13 — Documented non-standard syntax means what the documentation says."""
 from __future__ import annotations
 
+import json
+
 import re
 
 from .. import core, qeval, qpool
@@ -87,6 +89,14 @@ def gen(ctx):
     for l, r in MEMBER:
         for d in docs:
             cases.append({"kind": "member", "text": f"$[?{l} in {r}]", "std": f"$[?{r} contains {l}]", "doc": d, "ctx": {}})
+    # membership grid: every operand kind (literal, list literal, singular query, query that selects nothing) against
+    # arrays that hold arrays, empty arrays, booleans next to numbers, strings, objects; decided by an independent oracle
+    mdoc = [{"m": 1, "c": [True]}, {"m": 1, "c": [1.0, "1"]}, {"m": True, "c": [1]}, {"m": [1, 2], "c": [[1, 2], [3, 4]]}, {"m": [1], "c": [[True]]},
+            {"m": [], "c": [[]]}, {"c": [[]]}, {"c": [None]}, {"m": None, "c": [None]}, {"m": "a", "c": "cab"}, {"m": "a", "c": {"a": 1}}, {"m": 1, "c": {"1": 1}},
+            {"m": {"k": [1]}, "c": [{"k": [1.0]}, 2]}, {"m": {"k": [1]}, "c": [{"k": [True]}]}, {"m": "", "c": []}, {"m": 0, "c": [False, ""]}, {"m": [1, 2], "c": [1, 2]}]
+    for item in ("@.m", "@.nope", "1", "true", "null", "'a'", "[1, 2]", "[1]", "[]", "[true]", "1.0"):
+        for cont in ("@.c", "[1, 2]", "[true, 'a']", "'cab'", "@.nope", "$[3].c", "$[5].c"):
+            cases.append({"kind": "member-grid", "text": f"$[?{item} in {cont}]", "std": f"$[?{cont} contains {item}]", "item": item, "cont": cont, "doc": mdoc, "ctx": {}})
     for q in ("^[?@ == 5]", "^[0]", "^[?@.a]", "^[*]", "^..*"):
         for d in (5, "abc", None, True, 1.5, [], {}):
             cases.append({"kind": "fake", "text": q, "doc": d, "ctx": {}})
@@ -141,7 +151,35 @@ def evaluate(ctx, cases):
             ctx.count("entry-points")
             qeval.compare_entry_points(ctx, c["text"], compiled, doc, extra, got["ok"],
                                        "an extension query must mean the same through every entry point (the filter context is forwarded by each)", inp)
-        if kind in ("alias", "equiv", "member"):
+        if kind == "member-grid":
+            want = []
+            for i, cand in enumerate(doc):
+                def operand(txt):
+                    if txt == "@.m":
+                        return ("v", cand["m"]) if "m" in cand else None
+                    if txt == "@.c":
+                        return ("v", cand["c"]) if "c" in cand else None
+                    if txt == "@.nope":
+                        return None
+                    if txt.startswith("$["):
+                        return ("v", doc[int(txt[2])]["c"])
+                    return ("v", json.loads(txt.replace("'", '"')))
+                it, co = operand(c["item"]), operand(c["cont"])
+                found = False
+                if it is not None and co is not None:
+                    iv, cv = it[1], co[1]
+                    if isinstance(cv, str):
+                        found = isinstance(iv, str) and iv in cv
+                    elif isinstance(cv, dict):
+                        found = isinstance(iv, str) and iv in cv
+                    elif isinstance(cv, list):
+                        found = any(core.json_equal(iv, e) for e in cv)
+                if found:
+                    want.append(core.canon(cand))
+            if [v for _, v in got["ok"]] != want:
+                ctx.violation("`in` / `contains` test membership in arrays (with the equality of `==`), substrings and object member names; an operand that selects nothing is a member of nothing",
+                              inp, [v for _, v in got["ok"]], want)
+        if kind in ("alias", "equiv", "member", "member-grid"):
             so = qeval.compile_outcome(c["std"])
             if "err" in so:
                 ctx.violation("the standard spelling must compile", {"text": c["std"]}, so, "compiles")
